@@ -63,4 +63,38 @@ def opSrvObj (args : List SExp) : Option OpResult := do
     pure ⟨"?object-parser-not-modelled", judge⟩
   | _ => none
 
+/-- `srv.fail <srv> <method> <level> <depth> <kind> <report> => <status> [detail]`: every data call of the backend fails.
+    The answer carries the backend's own status (500 for an error without one) wherever the request reaches a data
+    call, a precondition element is served as a DAV:error document, and a multiget reports the failure per resource. -/
+def opSrvFail (args : List SExp) : Option OpResult := do
+  match args with
+  | [.atom srv, m, lvl, .atom depth, .atom kind, .atom report] =>
+    let m ← m.str?
+    let lvl ← lvl.nat?
+    let c : Nat := if kind = "plain" then 500 else if kind = "precond" then 409 else ((kind.drop 4).toNat?).getD 0
+    let detail := if kind = "precond" then " no-uid-conflict" else ""
+    let fails := s!"{c}{detail}"
+    let want : String :=
+      if m = "OPTIONS" then (if lvl = 4 then (if kind = "http404" then "204" else fails) else "204")
+      else if m = "GET" || m = "HEAD" || m = "PUT" then fails
+      else if m = "DELETE" then (if srv = "cal" || lvl = 3 || lvl = 4 then fails else "403")
+      else if m = "MKCOL" then (if lvl = 3 then fails else "403")
+      else if m = "PROPPATCH" || m = "COPY" then "400"      -- sent without a body / Destination: refused up front
+      else if m = "PROPFIND" then
+        (if lvl ≥ 3 || (lvl = 2 && depth ≠ "0") || (lvl ≤ 1 && depth = "infinity") then fails else "207")
+      else if m = "REPORT" then (if report = "multiget" then s!"207 {c}" else fails)
+      else "405"
+    pure ⟨want, fun got => mustEqual "C13" s!"backend-failure-{m}-answered-{(got.splitOn " ").headD got}" want got ++
+      (if m = "REPORT" && report = "multiget" && got != want then [("C10", "multiget-does-not-carry-the-backend-status")] else [])⟩
+  | _ => none
+
+/-- `srv.wellknown <srv> <method> <principal> => 308 <Location>`: discovery starts at the well-known URL -/
+def opSrvWellKnown (args : List SExp) : Option OpResult := do
+  match args with
+  | [_, _, p] =>
+    let p ← p.str?
+    let want := s!"308 {hexStr p}"
+    pure ⟨want, mustEqual "C12" "well-known-redirect" want⟩
+  | _ => none
+
 end Driver
